@@ -457,6 +457,108 @@ pub fn events() -> Value {
     json!({"violates": !ok, "input": {"events": want}, "expected": {"event_types": want, "content_types": want_ct}, "observed": got, "replay_args": ["events"]})
 }
 
+/// event-frames: SelectObjectContent events and request-level errors through the real SelectObjectContentEventStream::into_byte_stream,
+/// read back by an independent event-stream decoder (own bitwise CRC-32, every length and both checksums checked, string-typed headers
+/// only, payload compared byte for byte); a message that cannot be framed (a header value over 65535 bytes) must be refused, not mangled
+pub fn event_frames() -> Value {
+    use s3s::dto::{SelectObjectContentEvent as E, ContinuationEvent, EndEvent, RecordsEvent, SelectObjectContentEventStream};
+    use futures::StreamExt;
+    fn crc(data: &[u8]) -> u32 {
+        let mut c: u32 = 0xFFFF_FFFF;
+        for &b in data { c ^= b as u32; for _ in 0..8 { c = if c & 1 != 0 { (c >> 1) ^ 0xEDB8_8320 } else { c >> 1 }; } }
+        !c
+    }
+    /// Ok((headers, payload, consumed)) or Err(reason)
+    fn decode(b: &[u8]) -> Result<(Vec<(String, Vec<u8>)>, Vec<u8>, usize), String> {
+        if b.len() < 16 { return Err(format!("{} bytes: shorter than the smallest message", b.len())); }
+        let total = u32::from_be_bytes(b[0..4].try_into().unwrap()) as usize;
+        let hlen = u32::from_be_bytes(b[4..8].try_into().unwrap()) as usize;
+        let pcrc = u32::from_be_bytes(b[8..12].try_into().unwrap());
+        if pcrc != crc(&b[0..8]) { return Err("prelude CRC mismatch".into()); }
+        if total < 16 + hlen || total > b.len() { return Err(format!("total length {total} does not fit (headers {hlen}, available {})", b.len())); }
+        let mcrc = u32::from_be_bytes(b[total-4..total].try_into().unwrap());
+        if mcrc != crc(&b[0..total-4]) { return Err("message CRC mismatch".into()); }
+        let mut q = 12; let hend = 12 + hlen; let mut hs = Vec::new();
+        while q < hend {
+            let nl = b[q] as usize; q += 1;
+            if nl == 0 || q + nl + 3 > hend { return Err("header name overruns the header block".into()); }
+            let name = String::from_utf8(b[q..q+nl].to_vec()).map_err(|_| "header name is not UTF-8")?; q += nl;
+            if b[q] != 7 { return Err(format!("header {name}: value type {} (7 = string expected)", b[q])); }
+            q += 1;
+            let vl = u16::from_be_bytes(b[q..q+2].try_into().unwrap()) as usize; q += 2;
+            if q + vl > hend { return Err(format!("header {name}: value overruns the header block")); }
+            hs.push((name, b[q..q+vl].to_vec())); q += vl;
+        }
+        Ok((hs, b[hend..total-4].to_vec(), total))
+    }
+    let big: Vec<u8> = (0..70_000u32).map(|i| (i * 7 + 3) as u8).collect();
+    let mk_err = |code: s3s::S3ErrorCode, msg: Option<String>| { let mut e = s3s::S3Error::new(code); if let Some(m) = msg { e.set_message(m); } e };
+    let rec_h = || vec![(":event-type", b"Records".to_vec()), (":content-type", b"application/octet-stream".to_vec()), (":message-type", b"event".to_vec())];
+    // (item, expected headers in order + expected payload) — None = must be refused
+    let mut cases: Vec<(s3s::S3Result<E>, Option<(Vec<(&str, Vec<u8>)>, Vec<u8>)>)> = Vec::new();
+    for pl in [vec![0u8], b"a,b\n".to_vec(), vec![0xFFu8; 255], vec![7u8; 256], big.clone()] {
+        cases.push((Ok(E::Records(RecordsEvent { payload: Some(bytes::Bytes::from(pl.clone())) })), Some((rec_h(), pl))));
+    }
+    cases.push((Ok(E::Records(RecordsEvent { payload: Some(bytes::Bytes::new()) })), Some((rec_h(), vec![]))));
+    cases.push((Ok(E::Records(RecordsEvent { payload: None })), Some((rec_h(), vec![]))));
+    cases.push((Ok(E::Cont(ContinuationEvent {})), Some((vec![(":event-type", b"Cont".to_vec()), (":message-type", b"event".to_vec())], vec![]))));
+    cases.push((Ok(E::End(EndEvent {})), Some((vec![(":event-type", b"End".to_vec()), (":message-type", b"event".to_vec())], vec![]))));
+    cases.push((Err(mk_err(s3s::S3ErrorCode::InternalError, Some("we ran out of tea".into()))),
+        Some((vec![(":error-code", b"InternalError".to_vec()), (":error-message", b"we ran out of tea".to_vec()), (":message-type", b"error".to_vec())], vec![]))));
+    cases.push((Err(mk_err(s3s::S3ErrorCode::OverMaxRecordSize, None)),
+        Some((vec![(":error-code", b"OverMaxRecordSize".to_vec()), (":error-message", vec![]), (":message-type", b"error".to_vec())], vec![]))));
+    cases.push((Err(mk_err(s3s::S3ErrorCode::Custom("MyOwnCode".into()), Some("\u{e9}t\u{e9} \u{4f60}\u{597d}".into()))),
+        Some((vec![(":error-code", b"MyOwnCode".to_vec()), (":error-message", "\u{e9}t\u{e9} \u{4f60}\u{597d}".as_bytes().to_vec()), (":message-type", b"error".to_vec())], vec![]))));
+    cases.push((Err(mk_err(s3s::S3ErrorCode::InternalError, Some("m".repeat(65535)))),
+        Some((vec![(":error-code", b"InternalError".to_vec()), (":error-message", vec![b'm'; 65535]), (":message-type", b"error".to_vec())], vec![]))));
+    cases.push((Err(mk_err(s3s::S3ErrorCode::InternalError, Some("m".repeat(65536)))), None));
+    let rt = tokio::runtime::Builder::new_current_thread().enable_all().build().unwrap();
+    let mut bad: Vec<Value> = Vec::new(); let mut n = 0;
+    let mut all_items = Vec::new(); let mut all_want = Vec::new();
+    for (idx, (item, want)) in cases.into_iter().enumerate() {
+        n += 1;
+        let item2 = match &item { Ok(e) => Ok(e.clone()), Err(e) => { let mut c = s3s::S3Error::new(e.code().clone()); if let Some(m) = e.message() { c.set_message(m.to_owned()); } Err(c) } };
+        let stream = SelectObjectContentEventStream::new(futures::stream::iter(vec![item]));
+        let out: Vec<Result<bytes::Bytes, String>> = rt.block_on(async { let mut s = stream.into_byte_stream(); let mut v = Vec::new(); while let Some(x) = s.next().await { v.push(x.map_err(|e| e.to_string())); } v });
+        match want {
+            None => { if out.iter().any(|x| x.is_ok()) { bad.push(json!({"case": idx, "expected": "refused (a header value longer than 65535 bytes cannot be framed)", "observed": "bytes were produced"})); } }
+            Some((whs, wpl)) => {
+                let bytes: Vec<u8> = out.iter().filter_map(|x| x.as_ref().ok()).flat_map(|b| b.to_vec()).collect();
+                if out.iter().any(|x| x.is_err()) { bad.push(json!({"case": idx, "expected": "one message", "observed": format!("{:?}", out.iter().filter_map(|x| x.as_ref().err()).collect::<Vec<_>>())})); continue; }
+                match decode(&bytes) {
+                    Err(why) => bad.push(json!({"case": idx, "expected": "a valid event-stream message", "observed": why, "first_bytes": format!("{:02x?}", &bytes[..bytes.len().min(24)])})),
+                    Ok((hs, pl, used)) => {
+                        let hs_ok = hs.len() == whs.len() && hs.iter().zip(whs.iter()).all(|((n1, v1), (n2, v2))| n1 == n2 && v1 == v2);
+                        if !hs_ok || pl != wpl || used != bytes.len() {
+                            bad.push(json!({"case": idx, "expected": {"headers": whs.iter().map(|(a, b)| (a.to_string(), String::from_utf8_lossy(&b[..b.len().min(40)]).into_owned())).collect::<Vec<_>>(), "payload_len": wpl.len(), "message_len": bytes.len()},
+                                "observed": {"headers": hs.iter().map(|(a, b)| (a.clone(), String::from_utf8_lossy(&b[..b.len().min(40)]).into_owned())).collect::<Vec<_>>(), "payload_len": pl.len(), "payload_equal": pl == wpl, "consumed": used}}));
+                        }
+                    }
+                }
+                all_items.push(item2); all_want.push((whs, wpl));
+            }
+        }
+    }
+    // one stream with every framable item: the decoder must recover the same messages in the same order
+    n += 1;
+    let stream = SelectObjectContentEventStream::new(futures::stream::iter(all_items));
+    let bytes: Vec<u8> = rt.block_on(async { let mut s = stream.into_byte_stream(); let mut v = Vec::new(); while let Some(x) = s.next().await { if let Ok(b) = x { v.extend_from_slice(&b); } } v });
+    let mut p = 0; let mut k = 0;
+    while p < bytes.len() {
+        match decode(&bytes[p..]) {
+            Err(why) => { bad.push(json!({"case": "sequence", "at_message": k, "observed": why})); break; }
+            Ok((hs, pl, used)) => {
+                if k >= all_want.len() || hs.len() != all_want[k].0.len() || !hs.iter().zip(all_want[k].0.iter()).all(|((a, b), (c, d))| a == c && b == d) || pl != all_want[k].1 {
+                    bad.push(json!({"case": "sequence", "at_message": k, "observed": "message differs from the event sent at this position"})); break;
+                }
+                p += used; k += 1;
+            }
+        }
+    }
+    if bad.is_empty() && k != all_want.len() { bad.push(json!({"case": "sequence", "expected_messages": all_want.len(), "observed_messages": k})); }
+    json!({"violates": !bad.is_empty(), "input": {"cases": n}, "expected": "every event and error is one valid AWS event-stream message (lengths, both CRC-32s, string headers, payload unchanged) recovered in order by an independent decoder", "observed": bad, "replay_args": ["event-frames"]})
+}
+
 fn pct(s: &str) -> Option<String> {
     let b = s.as_bytes(); let mut out = Vec::new(); let mut i = 0;
     while i < b.len() {
